@@ -31,6 +31,9 @@ SPEC = dict(
 
 def signature(m):
     t = m["input"].split(" ")
+    if t[0] == "h":   # inner-machine stream: group by the tested (last) call and the kind of its record
+        a, b = m["impl"].split(" ; "), m["model"].split(" ; ")
+        return ["h", t[-1].split(",")[0], (a[-1].split(" ")[0] if a else "-") + "/" + (b[-1].split(" ")[0] if b else "-")]
     a, b = m["impl"].split(" "), m["model"].split(" ")
     why = "len"
     for i, (x, y) in enumerate(zip(a, b)):
